@@ -82,10 +82,19 @@ pub fn transform(def: &Def) -> Result<Network> {
         archetypes.insert(ident.ident.clone(), archetyp);
     }
 
-    archetypes
-        .remove(&def.entry)
-        .map(|v| v.0)
-        .ok_or_else(|| ErrorKind::UnknownModule(def.entry.clone()).into())
+    match archetypes.remove(&def.entry) {
+        // The entry module is instantiated as it is: it cannot be generic.
+        Some((_, generics)) if !generics.is_empty() => Err(ErrorKind::InvalidTypStatement(
+            TypClause {
+                ident: def.entry.clone(),
+                args: Vec::new(),
+            },
+            generics,
+        )
+        .into()),
+        Some((node, _)) => Ok(node),
+        None => Err(ErrorKind::UnknownModule(def.entry.clone()).into()),
+    }
 }
 
 //
@@ -115,9 +124,20 @@ fn transform_module(
 
     // (4) Inherit known symbols and definitions
     if let Some(ref parent) = def.inherit {
-        let (arch, _) = nodes
+        let (arch, arch_generics) = nodes
             .get(parent)
             .expect("unreachable: parse order should guarantee, that all required modules are already parsed");
+        // A generic module cannot be inherited from: there is nowhere to provide its type arguments.
+        if !arch_generics.is_empty() {
+            return Err(ErrorKind::InvalidTypStatement(
+                TypClause {
+                    ident: parent.clone(),
+                    args: Vec::new(),
+                },
+                arch_generics.clone(),
+            )
+            .into());
+        }
         // Inherited names must not be declared again (a gate may be repeated identically).
         if let Some(gate) = arch
             .gates
